@@ -330,13 +330,14 @@ def assigned_fields(fn):
 
 # --------------------------------------------------------------- symbolic straight-line values
 
-def loop_assigned(fn):
+def loop_assigned(fn, per_loop=None):
     """decl ids of locals assigned inside a loop body (their value is not a
-    single linear form per path)."""
+    single linear form per path).  per_loop (dict) receives id(loop stmt) -> set."""
     from ..ir import walk_stmts, stmt_exprs
-    out = set()
+    total = set()
     for s in walk_stmts(fn.body):
         if s.k in ('while', 'do', 'for'):
+            out = set()
             exprs = list(stmt_exprs(s.body))
             if s.k == 'for' and s.inc is not None and not isinstance(s.inc, list):
                 exprs.append(s.inc)
@@ -354,7 +355,10 @@ def loop_assigned(fn):
                         l = strip(n.a[0])
                         if l.k == 'var':
                             out.add(l.decl)
-    return out
+            if per_loop is not None:
+                per_loop[id(s)] = out
+            total |= out
+    return total
 
 
 class SymRule(FactRule):
@@ -367,7 +371,8 @@ class SymRule(FactRule):
 
     def __init__(self, prog, fn):
         FactRule.__init__(self, prog, fn)
-        self.loopvars = loop_assigned(fn)
+        self.per_loop = {}
+        self.loopvars = loop_assigned(fn, self.per_loop)
         self.locals = set(fn.locals.keys()) | set(p.decl for p in fn.params)
 
     # -- environment access
@@ -411,8 +416,6 @@ class SymRule(FactRule):
         l = strip(lhs)
         key = None
         if l.k == 'var' and l.decl in self.locals:
-            if l.decl in self.loopvars:
-                return self.sym_assign(ctx, lhs, rhs, op, self.set_key(ts, ('v', l.decl), None))
             key = ('v', l.decl)
         elif l.k == 'mem' and l.op in self.track_fields:
             key = ('f', pstr(lhs))
@@ -442,6 +445,26 @@ class SymRule(FactRule):
         return self.sym_assign(ctx, lhs, rhs, op, ts)
 
     def sym_assign(self, ctx, lhs, rhs, op, ts):
+        return ts
+
+    def on_node(self, ctx, node, ts):
+        # loop head: variables assigned in a loop restart every iteration from one fresh symbol per
+        # loop, so that values stay linear and the exploration converges
+        if ctx.fn is self.fn and node.loop is not None and self.loopvars:
+            names = {}
+            for d in self.per_loop.get(id(node.loop), ()):
+                v = self.fn.locals.get(d)
+                if v is None:
+                    for p_ in self.fn.params:
+                        if p_.decl == d:
+                            v = p_
+                if v is not None:
+                    names[d] = v.op
+            for d, nm in names.items():
+                ts = self.set_key(ts, ('v', d), Lin({'%s@L%d' % (nm, node.line): 1}))
+        return self.sym_node(ctx, node, ts)
+
+    def sym_node(self, ctx, node, ts):
         return ts
 
     def on_call(self, ctx, call, ts):
